@@ -198,7 +198,7 @@ pub fn build(ctx: &Ctx) -> Vec<Box<dyn Arm>> {
     ctx.rule("the recorded syscall logs of C02-style histories, replayed under a power-loss model: per inode the image as of its last fsync/fdatasync plus any subset of the writes / truncates issued since (the last survivor optionally torn at one of the 512-byte sector boundaries of the file it crosses), and for the directory the entries as of the last directory fsync plus a prefix of the creates / renames / unlinks issued since; crash points = every point between two API calls (where every returned call is owed) and a third of the points inside calls; per point up to 10 fault choices (nothing un-synced survives; only directory operations; only data; everything but the last write of each file; the last write of a file torn at the first / second sector boundary; 2 generated subsets with tears); oracle: the file opens and shows the reference state after the returned calls or the one including the in-flight call; non-trivial = at least one un-synced operation dropped or torn and at least one call had returned");
     ctx.assume("fsync(fd) makes all earlier writes and the size of that inode durable; un-synced writes may persist in any subset; directory operations persist in order; rename is atomic; fsync of a newly created file also makes its directory entry durable, as on ext4 / xfs / btrfs (the ALICE / CrashMonkey model, weaker than ext4 data=ordered, so a pass is meaningful)");
     let t = ctx.tier;
-    ctx.rule("arm wrapped_log: a prefix of 5..8 put(8..20 KB)+commit cycles wraps the 64 KiB embedded log at least once (so stale record bytes lie behind the write head), optionally inside begin_batch with puts large enough to grow the log; crash points are then explored only in the 2..4 puts / commits that follow (every point inside them, with the same fault choices, tears included)");
+    ctx.rule("arm wrapped_log: a prefix of 5..8 put(8..20 KB)+commit cycles wraps the 64 KiB embedded log at least once (so stale record bytes lie behind the write head), in half of the cases inside begin_batch with two large puts that make the log grow while a put is pending; crash points are then explored only in the 2..4 puts / commits that follow (in a batch: from the growing put on; every point inside them, with the same fault choices, tears included)");
     let wrapped = move || {
         (
             prop::collection::vec((any::<u32>(), 9_000u32..20_000), 6..=9),
@@ -212,9 +212,15 @@ pub fn build(ctx: &Ctx) -> Vec<Box<dyn Arm>> {
                     ops.push(Op::Put(crate::hist::PutSpec::simple(crate::gen::Payload::Blob { seed, len, kind: crate::gen::BlobKind::Random }, 3)));
                     ops.push(Op::Commit);
                 }
-                let explore_from_op = ops.len() + 1;
+                let mut explore_from_op = ops.len() + 1;
                 if batch {
+                    // inside a batch (no automatic checkpoint) two large puts make the log grow while
+                    // the first is pending; the puts that follow the growth are the interesting ones
                     ops.push(Op::BeginBatch);
+                    let big = |seed: u32| Op::Put(crate::hist::PutSpec::simple(crate::gen::Payload::Blob { seed, len: 36_000 + seed % 9000, kind: crate::gen::BlobKind::Random }, 8));
+                    ops.push(big(fault_seed));
+                    explore_from_op = ops.len();
+                    ops.push(big(fault_seed ^ 0x55));
                 }
                 ops.extend(tail);
                 Case { hist: CrashCase { dim: 1, ops }, fault_seed, phase: 0, explore_from_op }
